@@ -6,6 +6,10 @@ use std::sync::Arc;
 
 impl ModuleLoader {
     pub fn new(entry_file: &Path, source: Arc<Source>) -> Self {
+        let (manifest, manifest_error) = match Manifest::find_for_source_file(entry_file) {
+            Ok(found) => (found, None),
+            Err(err) => (None, Some(err.to_string())),
+        };
         let base_dir = entry_file
             .parent()
             .map(|p| p.to_path_buf())
@@ -19,7 +23,8 @@ impl ModuleLoader {
             loading_stack: Vec::new(),
             source,
             native_fingerprints: std::collections::HashMap::new(),
-            manifest: Manifest::for_source_file(entry_file),
+            manifest,
+            manifest_error,
             loaded_native_modules: std::collections::HashMap::new(),
             next_call_site_slot: 0,
         }
@@ -44,6 +49,7 @@ impl ModuleLoader {
             source,
             native_fingerprints: std::collections::HashMap::new(),
             manifest,
+            manifest_error: None,
             loaded_native_modules: std::collections::HashMap::new(),
             next_call_site_slot: 0,
         }
